@@ -27,6 +27,10 @@ type C09Payload struct {
 	// LateGroup (with First): this top-level group is added with AddGroup only
 	// after the first parse.
 	LateGroup string `json:"late_group,omitempty"`
+	// CompPanic: completion mode, and the word being completed belongs to a
+	// top-level option whose Completer panics; the words before it are a valid
+	// line. Whatever the library makes of the panic, no command may run.
+	CompPanic bool `json:"comp_panic,omitempty"`
 }
 
 type propC09 struct{}
@@ -73,6 +77,10 @@ func (propC09) Gen(r *Rng, idx int, tier string) *Scenario {
 	sc.Decl.CompHandler = hr.Chance(1, 2)
 	sc.World = WorldSpec{Cols: 80, Now: 1700000000, Env: map[string]BStr{}}
 	p := sc.C09
+	if cpr := r.Fork("comppanic"); cpr.Chance(1, 14) && sc.Decl.Root != nil {
+		p.CompPanic = true
+		sc.Decl.Root.Opts = append(sc.Decl.Root.Opts, &OptSpec{Field: "FCompleterZz", Kind: "cp", Long: "cpzz"})
+	}
 	p.Plan = genPlan(r.Fork("plan"), sc.Decl)
 	fr := r.Fork("faults")
 	if fr.Chance(1, 5) {
@@ -125,6 +133,12 @@ func (propC09) Gen(r *Rng, idx int, tier string) *Scenario {
 			p.Faults = nil // the line is then expected to run like its twin
 		}
 	}
+	if p.CompPanic {
+		cpr := r.Fork("comppanic2")
+		p.Faults = nil
+		p.Completion = cpr.Pick([]string{"1", "verbose"})
+		p.CompWhen = cpr.Pick([]string{"", "late"})
+	}
 	if sc.Decl.Options&optPrintErrors != 0 && fr.Chance(1, 4) {
 		wf := []simrt.WriteFault{{At: fr.Intn(2), Accept: fr.Pick2([]int{0, 1, 10}), Err: fr.Pick([]string{"EPIPE", "ENOSPC", "EIO"}), Sticky: fr.Bool()}}
 		p.Fd1Faults, p.Fd2Faults = wf, wf
@@ -154,6 +168,10 @@ func (p *C09Payload) faultedInput() (argv []string, callee []CalleeFault, env ma
 			}
 			tokenFaults++
 		}
+	}
+	if p.CompPanic {
+		argv = append(argv, "--cpzz", "")
+		callee = append(callee, CalleeFault{Kind: "complete", Nth: -1, ID: 77, Form: "panic"})
 	}
 	return
 }
@@ -764,7 +782,7 @@ func (propC09) Reductions(sc *Scenario) []func(*Scenario) bool {
 	if p.First != nil {
 		out = append(out, func(s *Scenario) bool { s.C09.First = nil; return true })
 	}
-	if p.Completion != "" {
+	if p.Completion != "" && !p.CompPanic {
 		out = append(out, func(s *Scenario) bool { s.C09.Completion, s.C09.CompWhen = "", ""; return true })
 	}
 	if len(p.Fd1Faults)+len(p.Fd2Faults) > 0 {
